@@ -117,8 +117,8 @@ def search(ck, tier, seed):
         for K in ([2, 4] if tier == "quick" else [1, 2, 3, 5, 8]):
             if fam == "quadratic" and K < 2:
                 continue
-            for B in (0.5, 1.0, 3.0, 8.0):
-                for kind in ("zeros", "normal", "wide"):
+            for B in (0.5, 1.0, 3.0, 8.0, 0.3, 0.7, 1.1, 2.7):       # the last four are not float32 numbers (two round up, two down)
+                for kind in (("zeros", "normal", "wide") if B in (0.5, 1.0, 3.0, 8.0) else ("normal",)):
                     g = tgen(seed, "tails", fam, K, B, kind)
                     params = sh.gen_params(fam, K, True, kind, g)
                     inf = torch.tensor(math.inf, dtype=torch.float64)
